@@ -20,6 +20,7 @@ import (
 	"encoding/json"
 	"fmt"
 	"reflect"
+	"unicode/utf8"
 
 	"github.com/bytedance/sonic"
 
@@ -219,6 +220,9 @@ func internalMarshal(v any) (*internalStruct, error) {
 				return nil, err
 			}
 
+			if err = checkRepresentable(k); err != nil {
+				return nil, fmt.Errorf("marshaling map key fail: %w", err)
+			}
 			keyStr, err := sonic.MarshalString(k.Interface())
 			if err != nil {
 				return nil, fmt.Errorf("marshaling map key[%v] fail: %v", k.Interface(), err)
@@ -261,6 +265,9 @@ func internalMarshal(v any) (*internalStruct, error) {
 		}
 		ret.Type = key
 
+		if err := checkRepresentable(rv); err != nil {
+			return nil, err
+		}
 		jsonBytes, err := json.Marshal(rv.Interface())
 		if err != nil {
 			return nil, err
@@ -268,6 +275,15 @@ func internalMarshal(v any) (*internalStruct, error) {
 		ret.JSONValue = jsonBytes
 		return ret, nil
 	}
+}
+
+// checkRepresentable refuses what the JSON encoding would silently turn into another value: a string that is not valid
+// UTF-8 is written with U+FFFD in place of the offending bytes.
+func checkRepresentable(rv reflect.Value) error {
+	if rv.Kind() == reflect.String && !utf8.ValidString(rv.String()) {
+		return fmt.Errorf("string of type %v is not valid UTF-8 and cannot be serialized without being altered", rv.Type())
+	}
+	return nil
 }
 
 func internalUnmarshal(v *internalStruct) (any, error) {
